@@ -297,3 +297,42 @@ def r18_5(ctx):
             ctx.ok(('renewing-ack', 'rebinding=false'))
         else:
             ctx.bad("process|renewing-ack|rebinding-value", f"rebinding is set to {show(o)[:40]} when a new lease arrives", body=b, bb=w['bb'])
+
+
+@rule('R18.7', ['C18', 'C03'], floor=1, clause='lease arithmetic on server-supplied times: a Duration subtraction (which panics on underflow) of a value taken from the ACK is behind a comparison of the two durations')
+def r18_7(ctx):
+    F = ctx.F
+    n = 0
+    for nm in ('parse_ack', 'process'):
+        b = F.method(D, nm)
+        if b is None:
+            continue
+        for x in b.calls():
+            cn = b.callee_name(x[1]) or ''
+            if not cn.startswith('<time::Duration as std::ops::Sub'):
+                continue
+            a = [simplify(F.origin.operand(b, o, x[0], len(b.blocks[x[0]]['s']))) for o in x[2]]
+            if not any(l.startswith(f"F:{DR}.") for o in a for l in leafs(o)):
+                continue
+            n += 1
+            la, lb = leafs(a[0]), leafs(a[1])
+            fa = {l for l in la if l.startswith(f"F:{DR}.")}
+            fb = {l for l in lb if l.startswith(f"F:{DR}.")}
+
+            def ordered(f, fa=fa, fb=fb):
+                if f[0] != 'rel':
+                    return False
+                x_, y_ = {l for l in leafs(f[2]) if l.startswith(f"F:{DR}.")}, {l for l in leafs(f[3]) if l.startswith(f"F:{DR}.")}
+                # rhs < lhs  (subtrahend smaller than minuend)
+                if f[1] in ('Lt', 'Le') and fb and fb <= x_ and fa <= y_ and not (fb <= y_ and fa <= x_ and fa != fb):
+                    return True
+                if f[1] in ('Gt', 'Ge') and fb and fb <= y_ and fa <= x_:
+                    return True
+                return False
+            bad = unguarded(F, b, [x[0]], ordered)
+            if bad:
+                ctx.bad(f"dhcpv4::{nm}|duration-sub-unguarded", f"dhcpv4 {nm}: `{show(a[0])[:40]} - {show(a[1])[:40]}` on server-supplied times without comparing them first: "
+                        "an ACK with T1 larger than the lease panics Interface::poll (Duration subtraction underflow)", body=b, bb=x[0], path=bad[0][1])
+            else:
+                ctx.ok((nm, 'duration-sub', x[0]), sample=dict(fn=nm, sub='lease - renew', guard='renew < lease'))
+    ctx.need(n >= 1, "Duration subtractions on DHCP-supplied values")
